@@ -20,7 +20,7 @@ GROUP_PROP = {
 }
 
 
-def run(prop, tier, cases, run_case, rule, replay=None, sig_extra=None, nontrivial=None, batch=200, rep=None, design=None):
+def run(prop, tier, cases, run_case, rule, replay=None, sig_extra=None, nontrivial=None, batch=200, rep=None, design=None, extra=None):
     """cases: list of dicts with 'id'; run_case(case) -> {'id', 'ev': [events]} (executed in workers)."""
     collect = rep is not None
     rep = rep or Report(prop, tier)
@@ -82,6 +82,10 @@ def run(prop, tier, cases, run_case, rule, replay=None, sig_extra=None, nontrivi
                 rep.sample({"op": ev["op"], "c1": show(ev["c1"]), "c2": show(ev["c2"]), "keep": ev.get("keep"), "addl": ev.get("addl"),
                             "rename": [ev.get("s"), ev.get("t")], "result": show(ev["res"]), "exc": ev["exc"],
                             "verdicts": {g: verdicts[(t["id"], l, g)] for g in ev["groups"]}})
+    if extra and not replay and not collect:
+        from vcommon import drift_tier
+
+        drift_tier(prop, "algorithm-level", lambda: extra(rep, rd))      # bounded-exhaustive conformance tiers (SPEC-DRIFT lines only)
     shutil.rmtree(rd, ignore_errors=True)
     if collect:
         return {"evaluations": n_ev, "nontrivial": nontriv, "traces": len(traces), "verdict_counts": counts}
